@@ -1,23 +1,23 @@
 /-
-  Proofs/RRuleMinutelyBHM.lean — MINUTELY WITH BYMINUTE and optionally BYHOUR (in particular both together, the case
-  `MinutelyByArgs` and `MinutelyBHArgs` exclude) under the explicit reachability hypothesis `reachableMM`: some minute of
-  the grid has listed hour and minute.  Each pass of the reachability loop runs `__mod_distance` over the BYMINUTE tuple
-  that passed `__construct_byset` (`minutelyLoop_bm`); on the grid that tuple and the BYMINUTE argument list the same
-  minutes, and `orbit_window` bounds the search by the loop's own 1440 / gcd(interval, 1440).
+  Proofs/RRuleEMinutelyBHM.lean — Proofs/RRuleMinutelyBHM.lean with BYEASTER (complement of D-C01d: offsets −80..250, visited days inside
+  1583..4099, no BYWEEKNO) instead of "no BYEASTER": the same refinement over the BY-filter abstraction of
+  Proofs/RRuleEFilter.lean.  The lemmas of Proofs/RRuleMinutelyBHM.lean that do not mention the argument class are used from there.
 -/
-import DateutilVerif.Proofs.RRuleMinutelyLoopBM
-import DateutilVerif.Proofs.RRuleMinutelyBH
-import DateutilVerif.Proofs.RRuleSecondlyBHM
+import DateutilVerif.Proofs.RRuleEFilter
+import DateutilVerif.Proofs.RRuleMinutelyBHM
+import DateutilVerif.Proofs.RRuleEMinutelyBH
+import DateutilVerif.Proofs.RRuleESecondlyBHM
+import DateutilVerif.Proofs.RRuleEMinutely
 
 namespace RRule
 open Cal
 
-structure MinutelyBHMArgs (a : Args) : Prop where
+structure MinutelyBHMEArgs (a : Args) : Prop where
   freq : a.freq = 5
   interval : 1 ≤ a.interval
   valid : a.dtstart.Valid
   weekno : WArg a
-  byeaster : a.byeaster = none
+  easter : ∃ el, a.byeaster = some el ∧ el ≠ [] ∧ ∀ o ∈ el, -80 ≤ o ∧ o ≤ 250
   monthday_nz : ∀ x ∈ a.bymonthday.getD [], x ≠ 0
   hours : a.byhour = none ∨ ∃ l, a.byhour = some l ∧ l ≠ []
   minutes : ∃ l, a.byminute = some l
@@ -26,20 +26,20 @@ structure MinutelyBHMArgs (a : Args) : Prop where
 
 variable {a : Args} {r : Rule}
 
-theorem mbhm_dw (ma : MinutelyBHMArgs a) : DWArgs (asDaily0 a) :=
-  ⟨Or.inr rfl, ma.interval, ma.valid, rfl, ma.byeaster, ma.monthday_nz⟩
+theorem mbhme_dw (ma : MinutelyBHMEArgs a) : DWArgs (asDailyE a) :=
+  ⟨Or.inr rfl, ma.interval, ma.valid, ma.byweekno, rfl, ma.monthday_nz⟩
 
-abbrev minutelyBHMRuleOf (a : Args) (bm : List Int) (bs : Option (List Int)) : Rule :=
+abbrev minutelyBHMERuleOf (a : Args) (bm : List Int) (bs : Option (List Int)) : Rule :=
   { freq := a.freq, interval := a.interval, wkst := a.wkst.getD 0,
     dtstart := { a.dtstart with us := 0 }, tz := a.tz, count := a.count, untilDT := a.untilDT,
     bysetpos := a.bysetpos, bymonth := a.bymonth.map sortedSet, bymonthday := bymonthdayOf a,
     bynmonthday := bynmonthdayOf a, byyearday := a.byyearday.map sortedSet,
-    byeaster := none, byweekno := a.byweekno.map sortedSet,
+    byeaster := a.byeaster.map (sortBy ltInt), byweekno := none,
     byweekday := byweekdayOf a, bynweekday := bynweekdayOf a,
     byhour := a.byhour.map sortedSet, byminute := some bm, bysecond := bs, timeset := none }
 
-theorem mbhm_rule (ma : MinutelyBHMArgs a) (h : construct a = .ok r) :
-    ∃ bm bs, r = minutelyBHMRuleOf a bm bs ∧ bm ≠ [] ∧
+theorem mbhme_rule (ma : MinutelyBHMEArgs a) (h : construct a = .ok r) :
+    ∃ bm bs, r = minutelyBHMERuleOf a bm bs ∧ bm ≠ [] ∧
       (∀ x, x ∈ bm ↔ x ∈ a.byminute.getD [] ∧ (x - a.dtstart.mm) % g60 a = 0) ∧
       normUnit a.freq 6 a.interval a.dtstart.ss a.bysecond 60 = .ok bs := by
   obtain ⟨sp, bh, bm, bs, ts, h1, h2, h3, h4, h5, rfl⟩ := construct_ok a r h
@@ -67,7 +67,7 @@ theorem mbhm_rule (ma : MinutelyBHMArgs a) (h : construct a = .ok r) :
       injection h3 with h3
       subst h3
       have hne0 : (a.freq == 0) = false := by simp [ma.freq]
-      refine ⟨sortBy ltInt c, bs, by simp [minutelyBHMRuleOf, hne0, ma.byeaster, bymonthOf], ?_, ?_, h4⟩
+      refine ⟨sortBy ltInt c, bs, by simp [minutelyBHMERuleOf, hne0, ma.byweekno, bymonthOf], ?_, ?_, h4⟩
       · intro he
         have : c.isEmpty = true := by
           rw [isEmpty_of_mem_iff c (sortBy ltInt c) (fun x => (mem_sortBy ltInt x c).symm), he]; rfl
@@ -89,43 +89,29 @@ theorem mbhm_rule (ma : MinutelyBHMArgs a) (h : construct a = .ok r) :
           exact ⟨hx, by simp only [Bool.or_eq_true, beq_iff_eq]; right; exact hcond⟩
   · cases h3
 
-theorem mbhm_cuts (ma : MinutelyBHMArgs a) (h : construct a = .ok r) : CutsAgree a r := by
-  obtain ⟨bm, bs, hr, _⟩ := mbhm_rule ma h
+theorem mbhme_cuts (ma : MinutelyBHMEArgs a) (h : construct a = .ok r) : CutsAgree a r := by
+  obtain ⟨bm, bs, hr, _⟩ := mbhme_rule ma h
   rw [hr]; exact ⟨rfl, rfl, rfl⟩
 
-theorem mbhm_wrule (ma : MinutelyBHMArgs a) (h : construct a = .ok r) : WRule r := by
+theorem mbhme_erule (ma : MinutelyBHMEArgs a) (h : construct a = .ok r) : ERule r := by
   have hd := construct_nth_demoted a r h (by rw [ma.freq]; omega)
-  obtain ⟨bm, bs, hr, _⟩ := mbhm_rule ma h
+  obtain ⟨bm, bs, hr, _⟩ := mbhme_rule ma h
   rw [hr] at hd ⊢
-  refine wrule_of a _ ma.weekno rfl rfl ?_ rfl
+  refine erule_of a _ ma.easter rfl rfl ?_
   dsimp only at hd ⊢
   rcases hd with hd | hd <;> rw [hd] <;> rfl
 
-theorem mbhm_bridge (ma : MinutelyBHMArgs a) (h : construct a = .ok r) (ord : Int) (ho : 1 ≤ ord) :
-    (simpleOk r ord && wclause r ord) = Spec.RRule.dateOk a ord := by
-  obtain ⟨bm, bs, hr, _⟩ := mbhm_rule ma h
+theorem mbhme_bridge (ma : MinutelyBHMEArgs a) (h : construct a = .ok r) (ord : Int) (ho : 1 ≤ ord) :
+    (simpleOk r ord && eclause r ord) = Spec.RRule.dateOk a ord := by
+  obtain ⟨bm, bs, hr, _⟩ := mbhme_rule ma h
   rw [hr]
-  exact wOk_eq_dateOk a _ (by rw [ma.freq]; omega) (mbhm_dw ma) rfl rfl rfl rfl rfl rfl rfl ord ho
-
-/-- a minute-of-day count on the grid (any number of whole days away) has its minute-of-hour congruent to the
-    start's modulo gcd(interval, 60) -/
-theorem orbitM (a : Args) (V k z : Int)
-    (hV : V = a.dtstart.hh * 60 + a.dtstart.mm + k * a.interval + 1440 * z) :
-    (V % 60 - a.dtstart.mm) % g60 a = 0 := by
-  have d1 : g60 a ∣ a.interval := Int.gcd_dvd_left a.interval 60
-  have d2 : g60 a ∣ 60 := Int.gcd_dvd_right a.interval 60
-  have e : V % 60 - a.dtstart.mm = k * a.interval + 60 * (a.dtstart.hh + 24 * z - V / 60) := by
-    generalize k * a.interval = P at hV ⊢
-    omega
-  rw [e]
-  exact Int.emod_eq_zero_of_dvd (Int.dvd_add (Int.dvd_trans d1 (Int.dvd_mul_left k a.interval))
-    (Int.dvd_trans d2 (Int.dvd_mul_right 60 _)))
+  exact eOk_eq_dateOk a _ (by rw [ma.freq]; omega) (mbhme_dw ma) ma.easter rfl rfl rfl rfl rfl rfl ord ho
 
 /-- on the grid, the model's acceptance test is the argument lists' -/
-theorem okM2_eq (ma : MinutelyBHMArgs a) (h : construct a = .ok r) (V : Int)
+theorem okM2_eq_e (ma : MinutelyBHMEArgs a) (h : construct a = .ok r) (V : Int)
     (horb : (V % 60 - a.dtstart.mm) % g60 a = 0) :
     okM2 r V = (listedO a.byhour (V / 60 % 24) && listedO a.byminute (V % 60)) := by
-  obtain ⟨bm, bs, hr, _, hbmem, _⟩ := mbhm_rule ma h
+  obtain ⟨bm, bs, hr, _, hbmem, _⟩ := mbhme_rule ma h
   obtain ⟨l, hl⟩ := ma.minutes
   rw [hr]
   unfold okM2 okM
@@ -140,12 +126,12 @@ theorem okM2_eq (ma : MinutelyBHMArgs a) (h : construct a = .ok r) (V : Int)
   exact ⟨fun h => h.1, fun h => ⟨h, horb⟩⟩
 
 /-- the minute's time set: the model's `mtimeset`, and the specification's (empty when hour or minute is not listed) -/
-theorem mtimeset_mbhm (ma : MinutelyBHMArgs a) (h : construct a = .ok r) (hour minute : Int)
+theorem mtimeset_mbhm_e (ma : MinutelyBHMEArgs a) (h : construct a = .ok r) (hour minute : Int)
     (h0 : 0 ≤ hour) (h1 : hour ≤ 23) (m0 : 0 ≤ minute) (m1 : minute ≤ 59) :
     ∃ prod, mtimeset r hour minute = .ok prod ∧ TsOk prod ∧
       Spec.RRule.timesOf a (some hour) (some minute) none =
         (if (listedO a.byhour hour && listedO a.byminute minute) = true then prod else []) := by
-  obtain ⟨bm, bs, hr, _, _, h4⟩ := mbhm_rule ma h
+  obtain ⟨bm, bs, hr, _, _, h4⟩ := mbhme_rule ma h
   have n4 := normUnit_nodup _ _ _ _ _ _ _ h4
   have m4 := normUnit_mem _ _ _ _ _ _ _ (by rw [ma.freq]; omega) h4
   have hv := ma.valid
@@ -234,15 +220,15 @@ theorem mtimeset_mbhm (ma : MinutelyBHMArgs a) (h : construct a = .ok r) (hour m
     rw [mem_sortBy] at ht
     exact hvalid t ht
 
-theorem timesOf_mbhm_ok (ma : MinutelyBHMArgs a) (h : construct a = .ok r) (hour minute : Int)
+theorem timesOf_mbhm_ok_e (ma : MinutelyBHMEArgs a) (h : construct a = .ok r) (hour minute : Int)
     (h0 : 0 ≤ hour) (h1 : hour ≤ 23) (m0 : 0 ≤ minute) (m1 : minute ≤ 59) :
     TsOk (Spec.RRule.timesOf a (some hour) (some minute) none) := by
-  obtain ⟨prod, _, hok, hspec⟩ := mtimeset_mbhm ma h hour minute h0 h1 m0 m1
+  obtain ⟨prod, _, hok, hspec⟩ := mtimeset_mbhm_e ma h hour minute h0 h1 m0 m1
   rw [hspec]; split
   · exact hok
   · exact tsOk_nil
 
-theorem mbhm_span (ma : MinutelyBHMArgs a) (ord hour minute : Int) (k : Nat) (h0 : 0 ≤ hour) (h1 : hour ≤ 23)
+theorem mbhme_span (ma : MinutelyBHMEArgs a) (ord hour minute : Int) (k : Nat) (h0 : 0 ≤ hour) (h1 : hour ≤ 23)
     (m0 : 0 ≤ minute) (m1 : minute ≤ 59)
     (hu : (ord * 24 + hour) * 60 + minute =
       (Spec.RRule.startOrd a * 24 + a.dtstart.hh) * 60 + a.dtstart.mm + k * a.interval) :
@@ -257,32 +243,32 @@ theorem mbhm_span (ma : MinutelyBHMArgs a) (ord hour minute : Int) (k : Nat) (h0
   have e3 : ((ord * 24 + hour) * 60 + minute) % 60 = minute := by omega
   rw [e1, e2, e3]
 
-theorem mbhm_results (ma : MinutelyBHMArgs a) (h : construct a = .ok r) (k : Nat) (st : State)
-    (hg : MinutelyGood a r k st) (hle : curOrd st.cur ≤ maxOrdinal) :
+theorem mbhme_results (ma : MinutelyBHMEArgs a) (h : construct a = .ok r) (k : Nat) (st : State)
+    (hg : MinutelyEGood a r k st) (hle : curOrd st.cur ≤ maxOrdinal) :
     ∃ fl, periodResults r st = .ok (Spec.RRule.sel a (k : Int), none, fl) ∧
       (fl = true → Spec.RRule.dateOk a (curOrd st.cur) = false) ∧
       ∀ x ∈ Spec.RRule.sel a (k : Int), 0 ≤ x.ord ∧ x.ord ≤ maxOrdinal := by
-  have hw := mbhm_wrule ma h
-  obtain ⟨bm, bs, hr, _⟩ := mbhm_rule ma h
+  have hw := mbhme_erule ma h
+  obtain ⟨bm, bs, hr, _⟩ := mbhme_rule ma h
   have hfreq : r.freq = 5 := by rw [hr]; exact ma.freq
   have hsp := construct_bysetpos a r h
   have htsok : TsOk st.timeset := by
-    rw [hg.timeset]; exact timesOf_mbhm_ok ma h _ _ hg.hour.1 hg.hour.2 hg.minute.1 hg.minute.2
+    rw [hg.timeset]; exact timesOf_mbhm_ok_e ma h _ _ hg.hour.1 hg.hour.2 hg.minute.1 hg.minute.2
   have hpos : 1 ≤ curOrd st.cur := toOrdinal_pos _ _ _ hg.facts.year_lo hg.valid
-  obtain ⟨fl, hres, hflag⟩ := periodResults_day_w hw st hg.facts hg.inv hg.valid (by omega)
+  obtain ⟨fl, hres, hflag⟩ := periodResults_day_e hw st hg.facts hg.inv hg.valid (by omega)
     (by rw [hsp.1]; exact hsp.2) htsok hle
-  have hbridge : (intRange (curOrd st.cur) (curOrd st.cur + 1)).filter (fun o => simpleOk r o && wclause r o) =
+  have hbridge : (intRange (curOrd st.cur) (curOrd st.cur + 1)).filter (fun o => simpleOk r o && eclause r o) =
       (intRange (curOrd st.cur) (curOrd st.cur + 1)).filter (Spec.RRule.dateOk a) := by
     apply List.filter_congr
     intro o ho
-    exact mbhm_bridge ma h o (by have := (mem_intRange _ _ _).mp ho; omega)
-  have hspan := mbhm_span ma (curOrd st.cur) st.cur.hour st.cur.minute k hg.hour.1 hg.hour.2 hg.minute.1 hg.minute.2
+    exact mbhme_bridge ma h o (by have := (mem_intRange _ _ _).mp ho; omega)
+  have hspan := mbhme_span ma (curOrd st.cur) st.cur.hour st.cur.minute k hg.hour.1 hg.hour.2 hg.minute.1 hg.minute.2
     hg.idx
   have hsel := sel_span_gen a k _ _ _ _ _ hspan
   refine ⟨fl, ?_, ?_, ?_⟩
   · rw [hres, hg.timeset, hsel, hbridge, hsp.1]
   · intro hf
-    rw [← mbhm_bridge ma h _ hpos]
+    rw [← mbhme_bridge ma h _ hpos]
     exact hflag hf
   · intro x hx
     rw [hsel] at hx
@@ -290,15 +276,15 @@ theorem mbhm_results (ma : MinutelyBHMArgs a) (h : construct a = .ok r) (k : Nat
     omega
 
 /-- a grid minute whose hour or minute is not listed selects nothing -/
-theorem mbhm_skip_unlisted (ma : MinutelyBHMArgs a) (h : construct a = .ok r) (j : Nat) (ord hour minute : Int)
+theorem mbhme_skip_unlisted (ma : MinutelyBHMEArgs a) (h : construct a = .ok r) (j : Nat) (ord hour minute : Int)
     (h0 : 0 ≤ hour) (h1 : hour ≤ 23) (m0 : 0 ≤ minute) (m1 : minute ≤ 59)
     (hu : (ord * 24 + hour) * 60 + minute =
       (Spec.RRule.startOrd a * 24 + a.dtstart.hh) * 60 + a.dtstart.mm + j * a.interval)
     (hno : (listedO a.byhour hour && listedO a.byminute minute) = false) : Spec.RRule.sel a (j : Int) = [] := by
-  obtain ⟨prod, _, _, hspec⟩ := mtimeset_mbhm ma h hour minute h0 h1 m0 m1
+  obtain ⟨prod, _, _, hspec⟩ := mtimeset_mbhm_e ma h hour minute h0 h1 m0 m1
   rw [hno] at hspec
   simp only [Bool.false_eq_true, ↓reduceIte] at hspec
-  rw [sel_span_gen a j _ _ _ _ _ (mbhm_span ma ord hour minute j h0 h1 m0 m1 hu), hspec]
+  rw [sel_span_gen a j _ _ _ _ _ (mbhme_span ma ord hour minute j h0 h1 m0 m1 hu), hspec]
   have : ∀ (l : List Int), l.flatMap (fun o => ([].map (mkInst o) : List Inst)) = [] := by
     intro l; induction l with
     | nil => rfl
@@ -307,7 +293,7 @@ theorem mbhm_skip_unlisted (ma : MinutelyBHMArgs a) (h : construct a = .ok r) (j
   exact applySetpos_nil _
 
 /-- a grid minute on a day that is not in the set selects nothing -/
-theorem mbhm_skip_day (ma : MinutelyBHMArgs a) (k : Nat) (st : State) (hg : MinutelyGood a r k st)
+theorem mbhme_skip_day (ma : MinutelyBHMEArgs a) (k : Nat) (st : State) (hg : MinutelyEGood a r k st)
     (hno : Spec.RRule.dateOk a (curOrd st.cur) = false) (j : Nat) (hkj : k < j)
     (hj : ((j : Int) - k) * a.interval ≤ 1439 - (st.cur.hour * 60 + st.cur.minute)) :
     Spec.RRule.sel a (j : Int) = [] := by
@@ -322,27 +308,27 @@ theorem mbhm_skip_day (ma : MinutelyBHMArgs a) (k : Nat) (st : State) (hg : Minu
     have e : (j : Int) * a.interval = k * a.interval + ((j : Int) - k) * a.interval := by
       rw [← Int.add_mul]; congr 1; omega
     rw [e]; omega
-  have hspan := mbhm_span ma (curOrd st.cur) (M / 60) (M % 60) j (by omega) (by omega) (by omega) (by omega) hu
+  have hspan := mbhme_span ma (curOrd st.cur) (M / 60) (M % 60) j (by omega) (by omega) (by omega) (by omega) hu
   rw [sel_span_gen a j _ _ _ _ _ hspan, intRange_one]
   simp only [List.filter_cons, hno, Bool.false_eq_true, ↓reduceIte, List.filter_nil, List.flatMap_nil]
   exact applySetpos_nil _
 
 /-- one `advance`: the optional jump `X = s0·interval` inside the day, then the reachability loop to the least grid
     minute whose hour and minute are listed, `t ≤ 1440` steps further -/
-theorem mbhm_advance_core (ma : MinutelyBHMArgs a) (h : construct a = .ok r) (k : Nat) (st : State) (fl : Bool)
-    (c : Option Int) (hg : MinutelyGood a r k st) (s0 : Nat) (X : Int) (hX : X = s0 * a.interval)
+theorem mbhme_advance_core (ma : MinutelyBHMEArgs a) (h : construct a = .ok r) (k : Nat) (st : State) (fl : Bool)
+    (c : Option Int) (hg : MinutelyEGood a r k st) (s0 : Nat) (X : Int) (hX : X = s0 * a.interval)
     (hX0 : 0 ≤ X) (hXle : X ≤ 1439 - (st.cur.hour * 60 + st.cur.minute))
     (hmin0 : (if fl = true then st.cur.minute +
         Py.fdiv (1439 - (st.cur.hour * 60 + st.cur.minute)) r.interval * r.interval else st.cur.minute) =
       st.cur.minute + X)
-    (hle : curOrd st.cur * 1440 + 1439 + 1440 * a.interval < (maxOrdinal + 1) * 1440) :
+    (hle : curOrd st.cur * 1440 + 1439 + 1440 * a.interval < (emaxOrd + 1) * 1440) :
     ∃ (st' : State) (t : Nat), 1 ≤ t ∧ t ≤ 1440 ∧ advance r { st with count := c } fl = .ok st' ∧
-      MinutelyGood a r (k + s0 + t) st' ∧
+      MinutelyEGood a r (k + s0 + t) st' ∧
       ∀ t' : Nat, 1 ≤ t' → t' < t →
         (listedO a.byhour ((st.cur.hour * 60 + st.cur.minute + X + t' * a.interval) / 60 % 24) &&
          listedO a.byminute ((st.cur.hour * 60 + st.cur.minute + X + t' * a.interval) % 60)) = false := by
-  have hw := mbhm_wrule ma h
-  obtain ⟨bm, bs, hr, hbne, hbmem, _⟩ := mbhm_rule ma h
+  have hw := mbhme_erule ma h
+  obtain ⟨bm, bs, hr, hbne, hbmem, _⟩ := mbhme_rule ma h
   have hfreq : r.freq = 5 := by rw [hr]; exact ma.freq
   have hint : r.interval = a.interval := by rw [hr]
   have hbm : r.byminute = some bm := by rw [hr]
@@ -389,7 +375,7 @@ theorem mbhm_advance_core (ma : MinutelyBHMArgs a) (h : construct a = .ok r) (k 
         a.dtstart.hh * 60 + a.dtstart.mm + (j : Int) * a.interval -
           1440 * ((curOrd st.cur - Spec.RRule.startOrd a) - z) := by
       rw [e] at hz; omega
-    rw [e2, okM2_shift, okM2_eq ma h _ (orbitM a _ (j : Int) 0 (by omega))]
+    rw [e2, okM2_shift, okM2_eq_e ma h _ (orbitM a _ (j : Int) 0 (by omega))]
     exact hj
   obtain ⟨t, ht1, ht2, ht3, ht4, ht5⟩ := minutelyLoop_bm r (by rw [hint]; exact hi) bm hbm htr
     (reps + 1) (st.cur.minute + X) st.cur.hour st.cur.day false (by omega) hh.1 hreach
@@ -410,13 +396,13 @@ theorem mbhm_advance_core (ma : MinutelyBHMArgs a) (h : construct a = .ok r) (k 
   have hDn : 0 ≤ D := by omega
   have hdm : nd * 1440 + hr' * 60 + mi' = D ∧ 0 ≤ mi' ∧ mi' ≤ 59 ∧ 0 ≤ hr' ∧ hr' ≤ 23 ∧ 0 ≤ nd := by omega
   obtain ⟨d1, d2, d3, d4, d5, d6⟩ := hdm
-  rw [okM2_eq ma h _ horbD, ← hhr', ← hmi'] at ht3
-  obtain ⟨prod, hts, _, hspec⟩ := mtimeset_mbhm ma h hr' mi' d4 d5 d2 d3
+  rw [okM2_eq_e ma h _ horbD, ← hhr', ← hmi'] at ht3
+  obtain ⟨prod, hts, _, hspec⟩ := mtimeset_mbhm_e ma h hr' mi' d4 d5 d2 d3
   rw [ht3] at hspec
   simp only [↓reduceIte] at hspec
   have ek : ((k + s0 + t : Nat) : Int) * a.interval = k * a.interval + X + (t : Int) * a.interval := by
     rw [hX]; push_cast; rw [Int.add_mul, Int.add_mul]
-  have hadv : ∃ st', advance r { st with count := c } fl = .ok st' ∧ MinutelyGood a r (k + s0 + t) st' := by
+  have hadv : ∃ st', advance r { st with count := c } fl = .ok st' ∧ MinutelyEGood a r (k + s0 + t) st' := by
     unfold advance
     dsimp only
     rw [if_neg (by simp [hfreq]), if_neg (by simp [hfreq]), if_neg (by simp [hfreq]), if_neg (by simp [hfreq]),
@@ -437,10 +423,10 @@ theorem mbhm_advance_core (ma : MinutelyBHMArgs a) (h : construct a = .ok r) (k 
     · simp only [ne_eq, hz, not_false_eq_true, decide_true, Bool.or_true]
       have hcur : curOrd { st.cur with day := st.cur.day + nd, hour := hr', minute := mi' } = curOrd st.cur + nd := by
         unfold curOrd toOrdinal; dsimp only; omega
-      obtain ⟨st', hfix, hnw'⟩ := fixDay_ok_w hw
+      obtain ⟨st', hfix, hnw'⟩ := fixDay_ok_e hw
         { cur := { st.cur with day := st.cur.day + nd, hour := hr', minute := mi' }, info := st.info,
           timeset := prod, count := c }
-        true hm1 hm12 (by dsimp only; omega) hg.facts.year_lo hg.facts.year_hi (by dsimp only; rw [hcur]; omega) hg.inv
+        true hg.facts hm1 hm12 (by dsimp only; omega) (by dsimp only; rw [hcur]; omega) hg.inv
       have sp := fixDay_spec r _ st' hfix hm1 hm12 (by dsimp only; omega) hg.facts
       obtain ⟨e, v, f', eh, em, _, _, ts⟩ := sp
       refine ⟨st', hfix, ⟨f', hnw', v, by rw [eh]; exact ⟨d4, d5⟩, by rw [em]; exact ⟨d2, d3⟩, ?_,
@@ -452,18 +438,18 @@ theorem mbhm_advance_core (ma : MinutelyBHMArgs a) (h : construct a = .ok r) (k 
   refine ⟨st', t, ht1, ht1440, hadv', hg', ?_⟩
   intro t' a1 a2
   have := ht4 t' a1 a2
-  rw [okM2_eq ma h _ (horb t')] at this
+  rw [okM2_eq_e ma h _ (horb t')] at this
   have e : st.cur.hour * 60 + st.cur.minute + X + (t' : Int) * a.interval =
       st.cur.hour * 60 + (st.cur.minute + X) + (t' : Int) * a.interval := by omega
   rw [e]; exact this
 
-theorem mbhm_next (ma : MinutelyBHMArgs a) (h : construct a = .ok r) (k : Nat) (st : State) (fl : Bool)
-    (c : Option Int) (hg : MinutelyGood a r k st)
+theorem mbhme_next (ma : MinutelyBHMEArgs a) (h : construct a = .ok r) (k : Nat) (st : State) (fl : Bool)
+    (c : Option Int) (hg : MinutelyEGood a r k st)
     (hfl : fl = true → Spec.RRule.dateOk a (curOrd st.cur) = false)
-    (hle : curOrd st.cur * 1440 + 1439 + 1440 * a.interval < (maxOrdinal + 1) * 1440) :
-    ∃ st' k', advance r { st with count := c } fl = .ok st' ∧ k < k' ∧ k' ≤ k + 2880 ∧ MinutelyGood a r k' st' ∧
+    (hle : curOrd st.cur * 1440 + 1439 + 1440 * a.interval < (emaxOrd + 1) * 1440) :
+    ∃ st' k', advance r { st with count := c } fl = .ok st' ∧ k < k' ∧ k' ≤ k + 2880 ∧ MinutelyEGood a r k' st' ∧
       ∀ j : Nat, k < j → j < k' → Spec.RRule.sel a (j : Int) = [] := by
-  obtain ⟨bm, bs, hr, _⟩ := mbhm_rule ma h
+  obtain ⟨bm, bs, hr, _⟩ := mbhme_rule ma h
   have hint : r.interval = a.interval := by rw [hr]
   have hi := ma.interval
   have hh := hg.hour
@@ -480,7 +466,7 @@ theorem mbhm_next (ma : MinutelyBHMArgs a) (h : construct a = .ok r) (k : Nat) (
     rw [ecast] at ht
     have hpos : (0 : Int) ≤ ((j : Int) - k - s0) * a.interval := Int.mul_nonneg (by omega) (by omega)
     generalize hV : st.cur.hour * 60 + st.cur.minute + X + ((j : Int) - k - s0) * a.interval = V at ht
-    apply mbhm_skip_unlisted ma h j (curOrd st.cur + V / 1440) (V / 60 % 24) (V % 60)
+    apply mbhme_skip_unlisted ma h j (curOrd st.cur + V / 1440) (V / 60 % 24) (V % 60)
       (by omega) (by omega) (by omega) (by omega) ?_ ht
     have := hg.idx
     have e : (j : Int) * a.interval = k * a.interval + X + ((j : Int) - k - s0) * a.interval := by
@@ -488,7 +474,7 @@ theorem mbhm_next (ma : MinutelyBHMArgs a) (h : construct a = .ok r) (k : Nat) (
     rw [e]; omega
   cases fl with
   | false =>
-    obtain ⟨st', s, hs1, hs2, hadv, hg', hmin⟩ := mbhm_advance_core ma h k st false c hg 0 0 (by simp) (by omega)
+    obtain ⟨st', s, hs1, hs2, hadv, hg', hmin⟩ := mbhme_advance_core ma h k st false c hg 0 0 (by simp) (by omega)
       (by omega) (by simp) hle
     refine ⟨st', k + 0 + s, hadv, by omega, by omega, hg', ?_⟩
     intro j h1 h2
@@ -500,25 +486,26 @@ theorem mbhm_next (ma : MinutelyBHMArgs a) (h : construct a = .ok r) (k : Nat) (
     have hqX : R / a.interval * a.interval ≤ R := Int.ediv_mul_le _ (by omega)
     have hq1 : R / a.interval * 1 ≤ R / a.interval * a.interval := Int.mul_le_mul_of_nonneg_left hi hq0
     have hcast : ((R / a.interval).toNat : Int) = R / a.interval := Int.toNat_of_nonneg hq0
-    obtain ⟨st', s, hs1, hs2, hadv, hg', hmin⟩ := mbhm_advance_core ma h k st true c hg (R / a.interval).toNat
+    obtain ⟨st', s, hs1, hs2, hadv, hg', hmin⟩ := mbhme_advance_core ma h k st true c hg (R / a.interval).toNat
       (R / a.interval * a.interval) (by rw [hcast]) (Int.mul_nonneg hq0 (by omega)) (by rw [hR]; exact hqX)
       (by simp only [↓reduceIte]; rw [hR, Py.fdiv_pos _ (by omega), hint]) hle
     refine ⟨st', k + (R / a.interval).toNat + s, hadv, by omega, by omega, hg', ?_⟩
     intro j h1 h2
     by_cases hc : j ≤ k + (R / a.interval).toNat
-    · apply mbhm_skip_day ma k st hg (hfl rfl) j h1
+    · apply mbhme_skip_day ma k st hg (hfl rfl) j h1
       have hjq : (j : Int) - k ≤ R / a.interval := by omega
       have := Int.mul_le_mul_of_nonneg_right hjq (show (0 : Int) ≤ a.interval by omega)
       omega
     · exact htail _ _ (by rw [hcast]) (Int.mul_nonneg hq0 (by omega)) hqX s hmin j (by omega) h2
 
-theorem mbhm_init (ma : MinutelyBHMArgs a) (h : construct a = .ok r) :
-    ∃ st0, init r = .ok st0 ∧ MinutelyGood a r 0 st0 ∧ st0.count = r.count := by
-  have hw := mbhm_wrule ma h
+theorem mbhme_init (ma : MinutelyBHMEArgs a) (h : construct a = .ok r) (hlo : 1583 ≤ a.dtstart.y)
+    (hhi : Spec.RRule.startOrd a ≤ emaxOrd) :
+    ∃ st0, init r = .ok st0 ∧ MinutelyEGood a r 0 st0 ∧ st0.count = r.count := by
+  have hw := mbhme_erule ma h
   have hv := ma.valid
   unfold DT.Valid ValidDate at hv
-  obtain ⟨info, hre, hnw⟩ := rebuild_w hw a.dtstart.y a.dtstart.m hv.1.1 hv.1.2.1
-  obtain ⟨bm, bs, hr, hbne, hbmem, _⟩ := mbhm_rule ma h
+  obtain ⟨info, hre, hnw⟩ := rebuild_e hw a.dtstart.y a.dtstart.m hlo (start_year_hi a ma.valid hhi)
+  obtain ⟨bm, bs, hr, hbne, hbmem, _⟩ := mbhme_rule ma h
   have hd : r.dtstart = { a.dtstart with us := 0 } := by rw [hr]
   have hf : r.freq = 5 := by rw [hr]; exact ma.freq
   have hbh : r.byhour = a.byhour.map sortedSet := by rw [hr]
@@ -528,12 +515,12 @@ theorem mbhm_init (ma : MinutelyBHMArgs a) (h : construct a = .ok r) :
     | nil => exact absurd rfl hbne
     | cons _ _ => rfl
   -- the acceptance test at the start itself
-  have hstart := okM2_eq ma h (a.dtstart.hh * 60 + a.dtstart.mm) (orbitM a _ 0 0 (by omega))
+  have hstart := okM2_eq_e ma h (a.dtstart.hh * 60 + a.dtstart.mm) (orbitM a _ 0 0 (by omega))
   have e1 : (a.dtstart.hh * 60 + a.dtstart.mm) / 60 % 24 = a.dtstart.hh := by omega
   have e2 : (a.dtstart.hh * 60 + a.dtstart.mm) % 60 = a.dtstart.mm := by omega
   unfold okM2 okM at hstart
   rw [e1, e2, hbh, hbm] at hstart
-  obtain ⟨prod, hts, _, hspec⟩ := mtimeset_mbhm ma h a.dtstart.hh a.dtstart.mm hv.2.1 hv.2.2.1 hv.2.2.2.1 hv.2.2.2.2.1
+  obtain ⟨prod, hts, _, hspec⟩ := mtimeset_mbhm_e ma h a.dtstart.hh a.dtstart.mm hv.2.1 hv.2.2.1 hv.2.2.2.1 hv.2.2.2.2.1
   refine ⟨{ cur := { year := a.dtstart.y, month := a.dtstart.m, day := a.dtstart.d, hour := a.dtstart.hh,
                      minute := a.dtstart.mm, second := a.dtstart.ss, weekday := r.dtstart.weekday },
             info := info, timeset := Spec.RRule.timesOf a (some a.dtstart.hh) (some a.dtstart.mm) none,
@@ -557,14 +544,21 @@ theorem mbhm_init (ma : MinutelyBHMArgs a) (h : construct a = .ok r) :
   · refine ⟨rebuild_facts r _ _ info hre, hnw, hv.1.2.2, ⟨hv.2.1, hv.2.2.1⟩, ⟨hv.2.2.2.1, hv.2.2.2.2.1⟩, ?_, rfl⟩
     unfold curOrd Spec.RRule.startOrd DT.ordinal; simp
 
-/-- **`iter_eq_spec`, MINUTELY with BYMINUTE and optionally BYHOUR** under `reachableMM a`: `n ≤ m ≤ 2880·n` -/
-theorem iter_eq_spec_minutely_bhm (ma : MinutelyBHMArgs a) (h : construct a = .ok r) (n : Nat)
+/-- **`iter_eq_spec_minutely_bhm_easter`**: `iter_eq_spec_minutely_bhm` with BYEASTER instead of "no BYEASTER" — offsets −80..250 (the complement of
+    D-C01d), no BYWEEKNO, a start in a year ≥ 1583 and every visited day not after 31 December 4099 (where C19 ties
+    `easter.easter` to Meeus/Jones/Butcher); everything else as there, `n ≤ m ≤ 2880·n`. -/
+theorem iter_eq_spec_minutely_bhm_easter (ma : MinutelyBHMEArgs a) (h : construct a = .ok r) (n : Nat)
+    (hlo : 1583 ≤ a.dtstart.y)
     (hle : (Spec.RRule.startOrd a * 24 + a.dtstart.hh) * 60 + a.dtstart.mm + (2880 * n + 1440) * a.interval + 1439 <
-      (maxOrdinal + 1) * 1440) :
+      (Cal.toOrdinal 4099 12 31 + 1) * 1440) :
     ∃ m, n ≤ m ∧ m ≤ 2880 * n ∧ (iter r n).1 = Spec.RRule.occ a m := by
   have hi := ma.interval
-  have hbound : ∀ k : Nat, k < 2880 * n → ∀ st, MinutelyGood a r k st →
-      curOrd st.cur * 1440 + 1439 + 1440 * a.interval < (maxOrdinal + 1) * 1440 := by
+  have hmx := emaxOrd_le
+  have hE : Cal.toOrdinal 4099 12 31 = emaxOrd := rfl
+  rw [hE] at hle
+  have hnn : (0 : Int) ≤ ((2880 * n + 1440 : Int)) * a.interval := Int.mul_nonneg (by omega) (by omega)
+  have hbound : ∀ k : Nat, k < 2880 * n → ∀ st, MinutelyEGood a r k st →
+      curOrd st.cur * 1440 + 1439 + 1440 * a.interval < (emaxOrd + 1) * 1440 := by
     intro k hk st hg
     have := hg.idx
     have hh := hg.hour
@@ -575,32 +569,19 @@ theorem iter_eq_spec_minutely_bhm (ma : MinutelyBHMArgs a) (h : construct a = .o
       rw [Int.add_mul]
     rw [e'] at hle
     omega
-  have sim : SkipSim a r (2880 * n) 2880 (MinutelyGood a r) := {
-    agree := mbhm_cuts ma h
+  have sim : SkipSim a r (2880 * n) 2880 (MinutelyEGood a r) := {
+    agree := mbhme_cuts ma h
     step := by
       intro k st hk hg
       have hb := hbound k hk st hg
       have hi2 : a.interval ≤ 1440 * a.interval := by omega
-      obtain ⟨fl, hres, hflag, hbnd⟩ := mbhm_results ma h k st hg (by omega)
+      obtain ⟨fl, hres, hflag, hbnd⟩ := mbhme_results ma h k st hg (by omega)
       refine ⟨fl, [], Spec.RRule.sel a (k : Int), hres, rfl, by simp, hbnd, ?_⟩
       intro c
-      exact mbhm_next ma h k st fl c hg hflag hb }
-  obtain ⟨st0, hinit, hg0, hc0⟩ := mbhm_init ma h
+      exact mbhme_next ma h k st fl c hg hflag hb }
+  have hv := ma.valid
+  unfold DT.Valid at hv
+  obtain ⟨st0, hinit, hg0, hc0⟩ := mbhme_init ma h hlo (by omega)
   exact iter_refines_skip sim (by omega) st0 hinit hg0 hc0 n (by omega)
-
--- a MinutelyBHMArgs instance: every 25 minutes from 09:00, only at 9:00, 9:30, 17:00, 17:30
--- (reachability by the explicit witness j = 0, the start itself)
-example : MinutelyBHMArgs { freq := 5, dtstart := ⟨2024, 1, 1, 9, 0, 0, 0⟩, interval := 25, byhour := some [9, 17],
-                            byminute := some [0, 30] } :=
-  ⟨rfl, by decide, by decide, Or.inl rfl, rfl, by intro x hx; simp at hx, Or.inr ⟨[9, 17], rfl, by decide⟩,
-   ⟨[0, 30], rfl⟩, by intro x hx; simp at hx,
-   List.any_eq_true.mpr ⟨0, List.mem_range.mpr (by omega), by decide⟩⟩
--- … and one whose start is not itself listed: from 09:05 every 25 minutes, hour 17 at minute 0 or 30 only
--- (witness j = 19: 09:05 + 475 min = 17:00)
-example : MinutelyBHMArgs { freq := 5, dtstart := ⟨2024, 1, 1, 9, 5, 0, 0⟩, interval := 25, byhour := some [17],
-                            byminute := some [0, 30], bysecond := some [0, 15] } :=
-  ⟨rfl, by decide, by decide, Or.inl rfl, rfl, by intro x hx; simp at hx, Or.inr ⟨[17], rfl, by decide⟩,
-   ⟨[0, 30], rfl⟩, by decide,
-   List.any_eq_true.mpr ⟨19, List.mem_range.mpr (by omega), by decide⟩⟩
 
 end RRule
